@@ -78,7 +78,7 @@ REPLAY_PREFIX = '<<"REPLAY", '
 
 
 def run_tlc(pid, module, cfg_text, tag=None, workers=None, simulate=None, env=None, timeout=3600,
-            deque=False, xss=False, heap="8g", coverage=True, replay_to=None, keep_out=True, prefixes=None):
+            deque=False, xss=False, heap="8g", coverage=True, replay_to=None, keep_out=True, prefixes=None, extra=None):
     """Runs TLC on spec/<module>.tla with a generated cfg. REPLAY lines are parsed (and streamed to
     replay_to if given). Raises ToolError on anything that is neither success nor a violation."""
     tag = tag or module
@@ -101,6 +101,8 @@ def run_tlc(pid, module, cfg_text, tag=None, workers=None, simulate=None, env=No
         cmd += ["-coverage", "1"]
     if simulate:
         cmd += ["-simulate", simulate]
+    if extra:
+        cmd += list(extra)
     cmd.append(os.path.join(SPEC, module + ".tla"))
     e = dict(os.environ)
     e.pop("JAVA_TOOL_OPTIONS", None)
